@@ -46,7 +46,10 @@ def typedOk (r : RegDef) (data : List Val) : Bool :=
   (r.fields.zip data).all (fun (f, v) => Spec.C01.fieldInDomain f v) &&
   data.any (fun v => v != Val.none) &&
   match writePos r.fields data with
-  | .ok w => readPos r.fields w == data
+  | .ok w => readPos r.fields w == data &&
+      -- a register is one line: no rendering contains a newline (only a date
+      -- format with a newline in it could produce one)
+      !(w.dropLast.contains '\n')
   | .error _ => false
 
 /-- a default element: one line that matches no identifier -/
